@@ -315,6 +315,27 @@ func (this *partition) removeNode(nodeId uint64) {
 	}
 }
 
+// setNodeIds makes the replica set equal to nodeIds, node by node, so that
+// the raft group is loaded or unloaded when the local node is affected.
+func (this *partition) setNodeIds(nodeIds []uint64) {
+	wanted := make(map[uint64]struct{}, len(nodeIds))
+	for _, id := range nodeIds {
+		wanted[id] = struct{}{}
+	}
+	current := make(map[uint64]struct{})
+	for _, id := range this.nodeIds() {
+		current[id] = struct{}{}
+		if _, exists := wanted[id]; !exists {
+			this.removeNode(id)
+		}
+	}
+	for _, id := range nodeIds {
+		if _, exists := current[id]; !exists {
+			this.addNode(id)
+		}
+	}
+}
+
 func (this *partition) proposeAndWaitForCommit(ctx context.Context, proposal *pb.PartitionChange) (interface{}, error) {
 	ctx, cancelCtx := context.WithTimeout(ctx, proposalTimeout)
 	defer cancelCtx()
